@@ -70,3 +70,23 @@ func extUniqueMake(fr *frame, args []value) value {
 	*rt = append(*rt, uniqEnt{ts, v, cell})
 	return structure{cell}
 }
+
+// extDecline is returned by an intrinsic that does not want to handle this particular call: the real function body
+// is interpreted instead (see callSSA).
+var extDecline value = &opaqueStr{tag: "<declined intrinsic>"}
+
+// strconv integer formatting of a *symbolic* operand inside error messages of internal/socks
+// ("unexpected protocol version "+strconv.Itoa(int(b[0]))): an opaque string (like fmt.Sprintf) instead of one path per
+// value. Every other call (concrete operand, other callers) runs the real strconv code.
+func init() {
+	fmtInt := func(fr *frame, args []value) value {
+		if _, ok := args[0].(*Term); !ok {
+			return extDecline
+		}
+		if fr.caller == nil || fr.caller.fn.Pkg == nil || fr.caller.fn.Pkg.Pkg.Path() != "golang.org/x/net/internal/socks" {
+			return extDecline
+		}
+		return &opaqueStr{tag: fr.fn.String() + "@" + fr.w.where(fr.caller, fr.callpos)}
+	}
+	externals["strconv.Itoa"] = fmtInt
+}
